@@ -22,6 +22,13 @@ Observables per generated triangle t (1-4 slices, Cell / CumulativeCell / Increm
     kinds of limit / detail values swapped (1 <-> 1.0, True -> 1), (c) the previous case's triangle is
     exported / imported again; for a quarter of the cases every route is run twice and must give the
     identical document / triangle; the exported triangle itself must be unchanged.
+  * LESSON cases (fixed quota in every run, `lesson_cases`, histogram keys `lesson/*`; VERIF_SKIP_LESSONS=1 drops
+    them — experiments only): slices of 257/256/255 cells, 64 and >= 256 slices, arrays of 255/256/257/1000/4096,
+    a document above 1 MiB, periods sharing a start / an end, dates off the month grid, a LATE slice differing in
+    exactly one attribute (every attribute; others all set / all default), a late cell of another kind, all /
+    no attributes, twins (same coordinates, other values) exported one after the other, derived triangles whose
+    parent's caches are warm, falsy-everywhere metadata and values. They run through the same per-case code as the
+    random round trips (every route, model, Spec) and through the plain-document stream.
 """
 import dataclasses
 import io
@@ -367,6 +374,281 @@ def prime(rng, t, td, state):
     state["prev"] = t
     return mode
 
+# ---- lesson cases (generator lessons of seeded batch 4; BUILD_GUIDE last section) ----------------------
+# A FIXED quota in every run. Each entry goes through exactly the per-case code of the random round-trip
+# stream (every export and import route, python-level kinds, model comparison, Spec on the implementation's
+# output, Lean-written text). Entry: (tag, cells | Triangle, pre) — `pre` is a triangle that is exported and
+# imported through every route immediately BEFORE the case (state keyed by coordinates).
+
+D = gen.D
+_DAY = __import__("datetime").timedelta(days=1)
+
+
+def _mk(kind, ps, pe, evs, vals_of, meta):
+    """cells of one period; kind I: prev chain from the day before the period"""
+    out, prev = [], ps - _DAY
+    for ev in evs:
+        v = vals_of(ps, pe, ev)
+        if kind == "I":
+            out.append(IncrementalCell(ps, pe, prev, ev, v, meta))
+            prev = ev
+        elif kind == "U":
+            out.append(CumulativeCell(ps, pe, ev, v, meta))
+        else:
+            out.append(Cell(ps, pe, ev, v, meta))
+    return out
+
+
+def _scalars(rng, fields=("paid_loss", "earned_premium")):
+    def f(ps, pe, ev):
+        return {k: rng.choice([rng.randrange(-50, 5000), float(gen.dyadic(rng, 0, 512)), None, 0, 0.0])
+                for k in fields}
+    return f
+
+
+def _rows_cells(rng, kind, rows, meta, vals_of=None):
+    vals_of = vals_of or _scalars(rng)
+    return [c for ps, pe, evs in rows for c in _mk(kind, ps, pe, evs, vals_of, meta)]
+
+
+def _revalue(rng, t):
+    """same coordinates, metadata, field names, kinds, dtypes and sizes — other values"""
+    def nv(v):
+        if v is None:
+            return None
+        if isinstance(v, np.ndarray):
+            if v.dtype == np.int64:
+                return (v * 3 + rng.randrange(1, 9)).astype(np.int64)
+            return (v * 2.0 + float(gen.dyadic(rng, 1, 9))).astype(np.float64)
+        if isinstance(v, int):
+            return v * 3 + rng.randrange(1, 9)
+        return v * 2.0 + float(gen.dyadic(rng, 1, 9))
+    return Triangle([c.replace(values={k: nv(v) for k, v in c.values.items()}) for c in t.cells])
+
+
+def lesson_cases(rng, reps, td):
+    import c09_seq
+    out = []
+
+    def add(tag, x, pre=None):
+        out.append((tag, x, pre))
+
+    kinds = ["C", "U", "I"]
+    for rep in range(reps):
+        kk = kinds[(rep + rng.randrange(3)) % 3]
+        # (kk is redrawn for every section below)
+        # -- 1. size thresholds ------------------------------------------------------------------------
+        # slices of exactly 257, 256 and 255 cells (just above / at / below a 256 boundary) + a small one
+        sq = gen.layout_regular(rng, res=1, n_periods=17, n_lags=17, shape="square")
+        cells = []
+        for j, n in enumerate([257, 256, 255, 16]):
+            cells += _rows_cells(rng, kk, sq, Metadata(country="US", details={"k": j}))[:n]
+        add("large/cells>=300 (slices of 257, 256, 255, 16 cells)", cells)
+        rows1 = gen.layout_regular(rng, res=12, n_periods=1, n_lags=2, shape="square")
+        add("large/slices=64", [c for i in range(64) for c in _rows_cells(
+            rng, "I" if rep % 2 else kk, rows1, Metadata(currency="USD", details={"k": i}, loss_details={"p": i % 3}))])
+        n_sl = rng.choice([256, 257, 300])
+        add(f"large/slices>=256", [c for i in range(n_sl) for c in _rows_cells(
+            rng, kk, [(rows1[0][0], rows1[0][1], rows1[0][2][:1])],
+            Metadata(details={"k": i}) if i != n_sl - 2 else Metadata(details={"k": i}, loss_details={"late": ""}))])
+        for akind in ("U", "I"):
+            cells = []
+            rows = gen.layout_regular(rng, res=3, n_periods=len(_SIZES), n_lags=1 if akind == "U" else 2, shape="square")
+            for (ps, pe, evs), n in zip(rows, _SIZES):
+                def arrs(ps_, pe_, ev_, n=n):
+                    return {"reported_claims": np.array([rng.randrange(-4096, 4096) for _ in range(n)], dtype=np.int64),
+                            "paid_loss": np.array([rng.choice([gen.dyadic(rng, -64, 64), 3.0, 0.0]) for _ in range(n)],
+                                                  dtype=np.float64),
+                            "earned_premium": rng.choice([100, 2.5, None])}
+                cells += _mk(akind, ps, pe, evs, arrs, Metadata(risk_basis="Policy", per_occurrence_limit=1e6))
+            add(f"large/arrays {'/'.join(map(str, _SIZES))} int64+float64 ({akind})", cells)
+        # a document above 1 MiB (above 64 KiB in every run through the 4096-sample arrays already)
+        rows = gen.layout_regular(rng, res=12, n_periods=3, n_lags=4, shape="square")
+        n_s = 4096 if rep == 0 else 1000
+
+        def wide(ps_, pe_, ev_):
+            return {"paid_loss": np.array([gen.dyadic(rng, 0, 4096, bits=10) for _ in range(n_s)], dtype=np.float64),
+                    "reported_claims": np.array([rng.randrange(10 ** 6, 10 ** 7) for _ in range(n_s)], dtype=np.int64)}
+        add("large/document>1MiB" if n_s == 4096 else "large/document>200KiB",
+            _rows_cells(rng, kk, rows, Metadata(currency="EUR"), wide))
+
+        # -- 2. non-disjoint periods ---------------------------------------------------------------------
+        kk = rng.choice(kinds)
+        y = rng.randrange(1999, 2031)
+        ends = [gen.month_end(y, 1), gen.month_end(y, 3), gen.month_end(y, 6), gen.month_end(y, 12)]
+        evs = [gen.month_end(y, 12), gen.month_end(y + 1, 6), gen.month_end(y + 1, 12)]
+        m1, m2 = Metadata(country="DE", loss_details={"peril": "wind"}), Metadata(country="DE", loss_details={"peril": "fire"})
+        for k3 in kinds:
+            add(f"overlap/same-start one slice ({k3})",
+                [c for pe in ends for c in _mk(k3, D(y, 1, 1), pe, evs, _scalars(rng), m1)])
+        add("overlap/same-start across slices (annual + quarterly)",
+            _mk(kk, D(y, 1, 1), ends[3], evs, _scalars(rng), m1)
+            + [c for q in range(4) for c in _mk(kk, D(y, 3 * q + 1, 1), gen.month_end(y, 3 * q + 3), evs, _scalars(rng), m2)])
+        add("overlap/same-start LAST slice only",
+            _mk(kk, D(y, 1, 1), ends[3], evs, _scalars(rng), m2)
+            + _mk(kk, D(y + 1, 1, 1), gen.month_end(y + 1, 12), evs[2:], _scalars(rng), m2)
+            + [c for pe in ends[1:] for c in _mk(kk, D(y, 1, 1), pe, evs, _scalars(rng), m1)])
+        add("overlap/same-end one slice",
+            [c for ms in (10, 7, 1) for c in _mk(kk, D(y, ms, 1), ends[3], evs, _scalars(rng), m1)])
+        add("overlap/nested + identical coordinates in two slices",
+            [c for m in (m1, m2) for pe in ends[2:] for c in _mk("I", D(y, 1, 1), pe, evs[:2], _scalars(rng), m)])
+
+        # -- 3. dates off the month grid -------------------------------------------------------------------
+        kk = rng.choice(kinds)
+        mo = rng.randrange(1, 12)
+        half = [(D(y, mo, 1), D(y, mo, 15)), (D(y, mo, 16), gen.month_end(y, mo)),
+                (D(y, mo + 1, 1), D(y, mo + 1, 15))]
+        evh = [D(y, mo + 1, 15), gen.month_end(y, mo + 1), D(y + 1, mo + 1, 15), D(y + 1, mo + 1, 16)]
+        add("offgrid/half-month periods, evaluation 15th + 16th + month end",
+            [c for ps, pe in half for c in _mk(kk, ps, pe, evh, _scalars(rng), m1)])
+        add("offgrid/day-month swap pairs (03-04 vs 04-03), 10th->9th periods",
+            _mk(kk, D(y, 3, 4), D(y, 4, 3), [D(y, 4, 3), D(y, 5, 6), D(y, 6, 5), D(y, 11, 12), D(y, 12, 11)],
+                _scalars(rng), m2)
+            + _mk(kk, D(y, 4, 3), D(y, 5, 2), [D(y, 6, 5), D(y, 12, 11), D(y + 1, 1, 1), D(y + 1, 1, 10), D(y + 1, 10, 1)],
+                  _scalars(rng), m2))
+        add("offgrid/leap day + year ends + year 1000/9999",
+            _mk("U", D(2000, 2, 29), D(2000, 2, 29), [D(2000, 2, 29), D(2000, 3, 1), D(2004, 2, 29), D(9999, 12, 30)],
+                _scalars(rng), Metadata())
+            + _mk("U", D(1000, 1, 1), D(1000, 12, 31), [D(1000, 12, 31), D(1001, 1, 1)], _scalars(rng), Metadata()))
+
+        # -- 4. late difference --------------------------------------------------------------------------
+        kk = rng.choice(kinds)
+        rows = gen.layout_regular(rng, res=6, n_periods=2, n_lags=3, shape="square")
+        base = dict(risk_basis="Accident", country="DE", currency="EUR", reinsurance_basis="Net",
+                    loss_definition="Loss", per_occurrence_limit=500000, details={"coverage": "BI"},
+                    loss_details={"peril": "wind"})
+        # family a: every attribute SET in the early slices (they differ in loss_details, the last sort key); the odd
+        # slice equals its neighbour except in `attr`, where it has a later-sorting value.  family b: every attribute
+        # at its dataclass DEFAULT in the early slices; the odd one has a falsy / non-default value in `attr` only.
+        late_a = {"risk_basis": "Policy", "country": "ES", "currency": "USD", "reinsurance_basis": "Netto",
+                  "loss_definition": "Loss+DCC", "per_occurrence_limit": None, "details": {"coverage": "BI", "s": 0},
+                  "loss_details": None}
+        late_b = {"risk_basis": "", "country": "", "currency": "USD", "reinsurance_basis": "", "loss_definition": "Loss",
+                  "per_occurrence_limit": 0, "details": {"z": False}, "loss_details": None}
+        for attr in gen.ATTRS:
+            for variant, lv, kw0 in (("set", late_a, base), ("default", late_b, {})):
+                n_early = rng.randrange(2, 5)
+                metas = [Metadata(**{**kw0, "loss_details": {"peril": f"p{i}"}}) for i in range(n_early)]
+                near = {**kw0, "loss_details": {"peril": f"p{n_early - 1}"}}
+                odd = Metadata(**{**near, attr: lv[attr] if attr != "loss_details"
+                                  else {"peril": f"p{n_early - 1}", "zone": "" if variant == "default" else 1}})
+                pos = sorted(metas + [odd]).index(odd) - n_early      # 0 = last, -1 = second to last
+                add(f"late/{attr} only, others {variant} (position {'last' if pos == 0 else pos})",
+                    [c for m in metas + [odd] for c in _rows_cells(rng, kk, rows, m)])
+        # late cell of a slice: kind / None / array / field set differ in the LAST cell only
+        rows = gen.layout_regular(rng, res=3, n_periods=3, n_lags=3, shape="square")
+        for what in ("int-after-floats", "float-after-ints", "none-last", "array-last", "float64-after-int64",
+                     "extra-field-last", "missing-field-last", "empty-values-last"):
+            cs = sorted(_rows_cells(rng, kk, rows, m1, lambda *_: {"paid_loss": 1.5 if what != "float-after-ints" else 7,
+                                                                    "reported_claims": np.array([1, 2, 3], dtype=np.int64)}))
+            last = cs[-1]
+            v = dict(last.values)
+            if what == "int-after-floats":
+                v["paid_loss"] = 2
+            elif what == "float-after-ints":
+                v["paid_loss"] = 7.0
+            elif what == "none-last":
+                v["paid_loss"] = None
+            elif what == "array-last":
+                v["paid_loss"] = np.array([1.5, 2.0])
+            elif what == "float64-after-int64":
+                v["reported_claims"] = np.array([1.0, 2.0, 3.0])
+            elif what == "extra-field-last":
+                v["open_claims"] = 0
+            elif what == "missing-field-last":
+                del v["reported_claims"]
+            else:
+                v = {}
+            add(f"late/cell {what}", cs[:-1] + [last.replace(values=v)])
+
+        # -- 5. all of them / none of them ----------------------------------------------------------------
+        kk = rng.choice(kinds)
+        full = Metadata(risk_basis="Report", country="ES", currency="GBP", reinsurance_basis="Gross",
+                        loss_definition="Loss+DCC", per_occurrence_limit=2.5,
+                        details={"coverage": "PD", "state": "NY", "k": 3, "s": 1.5, "flag": True},
+                        loss_details={"peril": "ß", "n": 0, "x": 0.25, "b": False})
+        allv = lambda *_: {"paid_loss": 1.25, "reported_loss": 7, "earned_premium": None,  # noqa: E731
+                           "open_claims": np.array([1, 2], dtype=np.int64), "reported_claims": np.array([0.5, 2.0]),
+                           "e": np.array([], dtype=np.float64), "one": np.array([4], dtype=np.int64)}
+        add("options/every attribute set, every value kind", _rows_cells(rng, kk, rows, full, allv)
+            + _rows_cells(rng, kk, rows, dataclasses.replace(full, loss_details={**full.loss_details, "b": True}), allv))
+        add("options/every attribute default, no values", _rows_cells(rng, kk, rows, Metadata(), lambda *_: {}))
+
+        # -- 6. twins: same coordinates / metadata / kinds / sizes, other values, one after the other ---------
+        kk = rng.choice(kinds)
+        for tw in ("scalars", "arrays", "incremental"):
+            rows = gen.layout_regular(rng, res=3, n_periods=3, n_lags=3, shape="triangle")
+            kt = "I" if tw == "incremental" else kk
+            if tw == "arrays":
+                vf = lambda *_: {"paid_loss": np.array([gen.dyadic(rng, 0, 64) for _ in range(4)]),  # noqa: E731
+                                 "open_claims": np.array([rng.randrange(9) for _ in range(4)], dtype=np.int64)}
+            else:
+                vf = lambda *_: {"paid_loss": float(gen.dyadic(rng, 1, 64)), "open_claims": rng.randrange(1, 99)}  # noqa: E731
+            a = Triangle(_rows_cells(rng, kt, rows, m1, vf) + _rows_cells(rng, kt, rows, m2, vf))
+            b = _revalue(rng, a)
+            add(f"twin/{tw} first", a)
+            add(f"twin/{tw} second (revalued)", b, pre=a)
+
+        # -- 7. derived triangles, parent's caches warm ---------------------------------------------------
+        kk = rng.choice(kinds)
+        rows = gen.layout_regular(rng, res=3, n_periods=4, n_lags=4, shape="triangle")
+        pm = [Metadata(country="US", details={"coverage": "BI"}, loss_details={"peril": "wind"}),
+              Metadata(country="US", details={"coverage": "BI"}, loss_details={"peril": "fire"}),
+              Metadata(country="US", details={"coverage": "PD"})]
+        pv = lambda *_: {"paid_loss": float(gen.dyadic(rng, 0, 512)), "earned_premium": rng.randrange(100, 999),  # noqa: E731
+                         "open_claims": np.array([rng.randrange(9) for _ in range(3)], dtype=np.int64)}
+        parent = Triangle([c for m in pm for c in _rows_cells(rng, kk, rows, m, pv)])
+        c09_seq.read_accessors(parent)
+        for s in parent.slices.values():
+            c09_seq.read_accessors(s)
+        parent.to_dict()
+        s0 = parent.to_json()
+        ev_mid = parent.evaluation_dates[len(parent.evaluation_dates) // 2]
+        ps_mid = parent.periods[1][0]
+        derived = {
+            "filter-slice": lambda: parent.filter(lambda c: c.metadata == pm[1]),
+            "filter-period": lambda: parent.filter(lambda c: c.period_start >= ps_mid),
+            "clip-eval": lambda: parent.clip(max_eval=ev_mid),
+            "slice-index": lambda: parent[3:],
+            "coordinate-index": lambda: parent[ps_mid:, :ev_mid, pm[0]],
+            "select": lambda: parent.select(["paid_loss"]),
+            "derive_metadata": lambda: parent.derive_metadata(currency="USD", reinsurance_basis="Net"),
+            "derive_fields": lambda: parent.derive_fields(paid_loss=lambda c: c["paid_loss"] * 2 + 1),
+            "right_edge": lambda: parent.right_edge,
+            "reloaded": lambda: bermuda.json_string_to_triangle(s0),
+            "reloaded-slice": lambda: list(Triangle.from_dict(json.loads(s0)).slices.values())[-1],
+        }
+        for name, fn in derived.items():
+            st, t = call(fn)
+            if st == "ok":
+                add(f"derived/{name}", t)
+
+        # -- 8. falsy everywhere --------------------------------------------------------------------------
+        kk = rng.choice(kinds)
+        rows = gen.layout_regular(rng, res=12, n_periods=2, n_lags=2, shape="square")
+        fd = {"a": 0, "b": 0.0, "c": False, "d": ""}
+        for name, kws in {
+            "details 0/0.0/False/'' in every slice": [dict(country=c_, details=dict(fd)) for c_ in ("US", "DE", "ES")],
+            "loss_details falsy in every slice": [dict(country=c_, loss_details=dict(fd)) for c_ in ("US", "DE", "ES")],
+            "limit 0 in every slice": [dict(country=c_, per_occurrence_limit=0) for c_ in ("US", "DE")],
+            "limit 0.0 in every slice": [dict(country=c_, per_occurrence_limit=0.0) for c_ in ("US", "DE")],
+            "every string attribute ''": [dict(risk_basis="", country="", currency="", reinsurance_basis="",
+                                               loss_definition="", details={"k": k_}) for k_ in (0, 1)],
+            "one detail, 0, in every slice": [dict(country=c_, details={"z": 0}) for c_ in ("US", "DE")],
+            "one False loss_detail only": [dict(loss_details={"z": False})],
+        }.items():
+            add(f"falsy/{name}", [c for kw in kws for c in _rows_cells(rng, kk, rows, Metadata(**kw))])
+        zeros = lambda *_: {"paid_loss": 0, "reported_loss": 0.0, "earned_premium": None,  # noqa: E731
+                            "open_claims": np.array([0, 0], dtype=np.int64), "reported_claims": np.array([0.0, -0.0]),
+                            "e": np.array([], dtype=np.float64)}
+        add("falsy/values 0, 0.0, None, zero arrays, empty array in every cell",
+            _rows_cells(rng, kk, rows, Metadata(details=dict(fd)), zeros))
+    return out
+
+
+_SIZES = [255, 256, 257, 1000, 4096]
+
+
 # ---- implementation routes ----------------------------------------------------------------------
 
 def quiet(fn, *a, **kw):
@@ -441,20 +723,38 @@ def correspondence(ctx):
     seq_state = {}
 
     with tempfile.TemporaryDirectory(prefix="verif-c07-") as td:
-        # (i)+(ii) round trips, dyadic and non-dyadic floats
-        for i in range(n_rt + n_nd):
-            nd = i >= n_rt
-            cells = rand_triangle_cells(rng, nondyadic=nd)
-            if i % 97 == 0:
-                cells = []
-            st, t = call(Triangle, cells)
+        # (i)+(ii) round trips, dyadic and non-dyadic floats; then the fixed quota of lesson cases (own random
+        # stream, so the random cases draw the same values as before) through the very same per-case code
+        import random
+        lrng = random.Random(ctx.seed * 7919 + (5 if ctx.thorough else 3))
+        lessons = [] if os.environ.get("VERIF_SKIP_LESSONS") else lesson_cases(lrng, 3 if ctx.thorough else 1, td)
+        for i in range(n_rt + n_nd + len(lessons)):
+            nd = n_rt <= i < n_rt + n_nd
+            lesson = lessons[i - n_rt - n_nd] if i >= n_rt + n_nd else None
+            r = lrng if lesson else rng
+            pre = None
+            if lesson:
+                ltag, x, pre = lesson
+                st, t = ("ok", x) if isinstance(x, Triangle) else call(Triangle, x)
+                ctx.count(f"lesson/{ltag}")
+                ctx.count(f"stream=lesson/{ltag.split('/')[0]}")
+            else:
+                cells = rand_triangle_cells(rng, nondyadic=nd)
+                if i % 97 == 0:
+                    cells = []
+                st, t = call(Triangle, cells)
             if st != "ok":
-                raise common.Infra("generator produced an invalid triangle")
+                raise common.Infra(f"generator produced an invalid triangle ({lesson[0] if lesson else i}: {t})")
             wire = jw_cells(t.cells)
-            mode = prime(rng, t, td, seq_state)
+            mode = prime(r, t, td, seq_state)
+            if pre is not None:
+                # state keyed by coordinates: the twin (same coordinates, metadata, kinds and sizes, other values)
+                # goes through every export and import route immediately before the case
+                impl_routes(pre, td)
+                mode += "+twin-values"
             asts, loads = impl_routes(t, td)
             ctx.count(f"sequence/primed by {mode}")
-            if rng.random() < 0.25:
+            if r.random() < 0.25:
                 # the same calls once more on the same objects: identical documents and triangles
                 asts2, loads2 = impl_routes(t, td)
                 ctx.count("sequence/repeated")
@@ -470,7 +770,20 @@ def correspondence(ctx):
             if jw_cells(t.cells) != wire:
                 ctx.fail("export / import changed the triangle that was exported", {"cells": wire})
             desc = gen.describe(t.cells)
-            stream = "nondyadic" if nd else "roundtrip"
+            try:
+                doc_bytes = os.path.getsize(os.path.join(td, "t.json"))
+            except OSError:
+                doc_bytes = 0
+            stream = "lesson" if lesson else "nondyadic" if nd else "roundtrip"
+            if lesson:
+                n_el = sum(v.size for c in t.cells for v in c.values.values() if isinstance(v, np.ndarray))
+                ctx.count(f"lesson-size/cells>={300 if len(t) >= 300 else 100 if len(t) >= 100 else 0}")
+                ctx.count(f"lesson-size/slices>={256 if desc.get('slices', 0) >= 256 else 50 if desc.get('slices', 0) >= 50 else 0}")
+                ctx.count(f"lesson-size/document>={'1MiB' if doc_bytes >= 2 ** 20 else '64KiB' if doc_bytes >= 2 ** 16 else '0'}")
+                if len({(c.metadata, c.period_start) for c in t.cells}) < len({(c.metadata, c.period) for c in t.cells}):
+                    ctx.count("lesson-shape/periods of one slice share a period_start")
+                if any(c.period_end != gen.month_end(c.period_end.year, c.period_end.month) for c in t.cells):
+                    ctx.count("lesson-shape/period end off the month end")
             ctx.count(f"{stream}/slices={desc.get('slices')}")
             ctx.count(f"{stream}/kind={desc.get('kind', 'empty')}")
             if shared_coordinates_differ_in_prev(t.cells):
@@ -513,10 +826,21 @@ def correspondence(ctx):
             info.append(("rt", case, base, dumps, t))
 
         # (iii) documents written by the harness's own serializer
-        for i in range(n_plain):
-            cells = rand_triangle_cells(rng, nondyadic=False)
-            t = Triangle(cells)
-            doc = plain_document(rng, t)
+        plain_lessons = [(ltag, x if isinstance(x, Triangle) else Triangle(x)) for ltag, x, _ in lessons]
+        plain_lessons = [(ltag, x) for ltag, x in plain_lessons if len(x) <= 400 and sum(
+            v.size for c in x.cells for v in c.values.values() if isinstance(v, np.ndarray)) <= 12000]
+        for i in range(n_plain + len(plain_lessons)):
+            if i >= n_plain:
+                # lesson triangles written by the harness's own serializer, too
+                r = lrng
+                t = plain_lessons[i - n_plain][1]
+                cells = t.cells
+                ctx.count(f"plain/lesson/{plain_lessons[i - n_plain][0].split('/')[0]}")
+            else:
+                r = rng
+                cells = rand_triangle_cells(rng, nondyadic=False)
+                t = Triangle(cells)
+            doc = plain_document(r, t)
             res_d = call(Triangle.from_dict, doc)
             res_s = call(bermuda.json_string_to_triangle, json.dumps(doc))
             if i % 3 == 0:
@@ -621,7 +945,10 @@ if __name__ == "__main__":
              "int vs float vs None; Cell, CumulativeCell, IncrementalCell; regular, ragged, day-level; per field a "
              "random kind None/int/float/int64 array/float64 array (4% of them 255-1000 elements long)/empty array/size-1 array; bool, int and float "
              "details) x every export and import route (incl. the deprecated triangle_json_load(s)); a non-dyadic float stream; documents written by the "
-             "harness's own serializer; an out-of-domain stream (model vs implementation only). distinct = distinct "
+             "harness's own serializer; an out-of-domain stream (model vs implementation only); a fixed quota of lesson cases "
+             "(size thresholds 255/256/257 cells per slice, 64/256+ slices, 4096-sample arrays, > 1 MiB document; non-disjoint "
+             "periods; off-month-grid dates; late single-attribute difference for every attribute; all/no attributes; value twins "
+             "in sequence; derived triangles with warm parent caches; falsy-everywhere metadata/values) through the same code. distinct = distinct "
              "canonical input dump; non-trivial = at least one cell",
         assumptions=["risk_basis is not None (reads back as 'Accident')",
                      "field / detail keys avoid the object_hook trigger names (slices, cells, and "
